@@ -1198,6 +1198,11 @@ class Module(ModuleBase):
         raise errors.CallCompactUnboundModuleError()
       is_recurrent = self._state.in_compact_method
       self._state.in_compact_method = True
+      if not is_recurrent:
+        # names reserved before the call (by setup) stay reserved after it
+        prior_reservations = {
+          k: set(v) for k, v in self.scope.reservations.items()
+        }
     _context.module_stack.append(self)
     try:
       # get call info
@@ -1243,6 +1248,9 @@ class Module(ModuleBase):
       _context.module_stack.pop()
       if is_compact_method:
         object.__setattr__(self, 'scope', self.scope.rewound())
+        if not is_recurrent:
+          for k, v in prior_reservations.items():
+            self.scope.reservations[k] |= v
       # setup or compact calls can be recurrent for example due to super calls
       # resetting the state would cause is compact/setup method
       # to be set to False prematurely.
